@@ -313,6 +313,15 @@ def exempt(ctx, f, eff, w, r):
             return "facade read"
     if f.qual == SETTERS['children'] and rkind == 'call' and rcallee is not None and rcallee.qual == SETTERS['parent']:
         return "E1 every guard of the parent setter is established before the first write (obligation children_prevalidated)"
+    if rkind == 'call' and rcallee is not None and rcallee.qual == SETTERS['children'] and f.qual != SETTERS['children']:
+        v = _assigned_value(f, rnode)
+        tgt = rnode if isinstance(rnode, ast.Attribute) else None
+        if v is not None and tgt is not None:
+            vx = Expander(prog, f, ctx.typer, inline=False).expand(v, cfg_of(f).node_containing(rnode))
+            parts = facts.comp_parts(v) or facts.comp_parts(vx)
+            if parts and isinstance(parts[0], ast.Name) and isinstance(parts[1], ast.Name) and parts[0].id == parts[1].id and \
+                    isinstance(parts[2], ast.Attribute) and parts[2].attr in ('children', '_Task__children') and same(parts[2].value, tgt.value):
+                return "E3 x.children = [c for c in x.children if ..]: a sub-list of the current children cannot be rejected"
     if rkind == 'call' and rcallee is not None and rcallee.qual == SETTERS['parent'] and f.qual != SETTERS['parent']:
         v = _assigned_value(f, rnode)
         if v is not None and isinstance(v, ast.Constant) and v.value is None and _parent_none_cannot_reject(ctx):
@@ -391,7 +400,7 @@ def cannot_reject(ctx, o, eff):
     ok = False
     exf = Expander(prog, f, ctx.typer, inline=True)
     for st, tgt, val in facts.attr_stores(f, 'children'):
-        if match("self._ChildrenList__parent", exf.expand(tgt.value, cfg_of(f).node_of(st))):
+        if match(f"self.{_owner_attr(prog)}", exf.expand(tgt.value, cfg_of(f).node_of(st))):
             ok = True
             vx = exf.expand(val, cfg_of(f).node_of(st))
             sub = _sublist_of_live(vx)
@@ -434,6 +443,16 @@ def cannot_reject(ctx, o, eff):
         o.site(w, w.node, "WBS.__remove removes through the child list facade")
     else:
         o.undecided(w, w.node, '__remove', "WBS.__remove in an unrecognised form")
+
+
+def _owner_attr(prog) -> str:
+    """the (mangled) attribute in which a _ChildrenList keeps its owner task: what __init__ stores its first parameter in"""
+    init = prog.funcs.get('task._ChildrenList.__init__')
+    if init is not None and len(init.params) > 1:
+        for st, tgt, val in facts.attr_stores(init, None):
+            if isinstance(val, ast.Name) and val.id == init.params[1] and isinstance(tgt.value, ast.Name) and tgt.value.id == init.self_name:
+                return tgt.attr
+    return '_ChildrenList__parent'
 
 
 def _sublist_of_live(v):
@@ -499,7 +518,38 @@ def prevalidated(ctx, o, eff):
         # the argument of the parent setter is the receiver of the children assignment: never None
         R = T.F_and(R, T.F_not(T.F_atom('none(self)')))
         label = "parent-setter guard `" + T.fmt(g.formula)[:70] + "` established for every element before the old children are released"
-        T.require(ctx, o, caller, label, R, writes, eff, needs_elem=False, mode_filter=_reaches_under)
+        from .c01 import _Capture
+        cap = _Capture()
+        T.require(ctx, cap, caller, label, R, writes, eff, needs_elem=False, mode_filter=_reaches_under)
+        # the same helper predicate called with OTHER arguments in the caller (e.g. a longer ancestor list): which of the two calls is
+        # the stronger one cannot be read off the atoms
+        rcalls = {a.split('(', 1)[0] for a in T.atoms_of(R) if a.startswith('call:')}
+        ccalls = {a for g2 in T.guard_formulas(ctx, caller) for a in T.atoms_of(g2.formula) if a.startswith('call:')}
+        def extends(ca):
+            """caller atom = R's call atom with one list argument extended by concatenation (`[x] + L` / `L + [x]`)"""
+            for ra in T.atoms_of(R):
+                if not ra.startswith('call:') or ra.split('(', 1)[0] != ca.split('(', 1)[0] or ra == ca:
+                    continue
+                try:
+                    rc_, cc_ = ast.parse(ra[5:], mode='eval').body, ast.parse(ca[5:], mode='eval').body
+                except SyntaxError:
+                    continue
+                if len(rc_.args) != len(cc_.args) or rc_.keywords or cc_.keywords:
+                    continue
+                def plain(e):
+                    m_ = match("[$y for $y in $x]", e) or match("list($x)", e)
+                    return plain(m_['x']) if m_ else e
+                diff = [(x, y) for x, y in zip(rc_.args, cc_.args) if not same(x, y)]
+                if len(diff) == 1 and isinstance(diff[0][1], ast.BinOp) and isinstance(diff[0][1].op, ast.Add) and \
+                        (same(plain(diff[0][1].left), plain(diff[0][0])) or same(plain(diff[0][1].right), plain(diff[0][0]))):
+                    return True
+            return False
+        other_args = [a for a in ccalls if a.split('(', 1)[0] in rcalls and a not in T.atoms_of(R) and extends(a)]
+        if cap.refuted and not cap.sites and other_args and all('is missing' in str(a[3]) for a, k in cap.refuted if len(a) > 3):
+            o.undecided(caller, caller.node, label, f"[{label}]: the children setter calls the same predicate with a list argument extended by concatenation "
+                                                    f"(`{other_args[0][5:][:70]}`); whether that implies the parent setter's check is not decided")
+        else:
+            cap.replay(o)
     # ids: duplicates inside the argument are part of _has_id_intersection
     h = prog.func('task._has_id_intersection')
     verdict, node, why = _duplicate_id_check(ctx, h)
@@ -903,7 +953,9 @@ def link_facades(ctx, o, eff):
             if m.name == '__init__':
                 continue
             for w in eff.direct_writes(m):
-                if w.field == '_list' and w.root != 'fresh':
+                # taking an element out cannot be rejected by anybody (no validation is skipped); whether both sides of the link are
+                # updated is C01's question.  Additions and replacements are what the setter has to validate first.
+                if w.field == '_list' and w.root != 'fresh' and not any(k in w.kind for k in ('remove', 'pop', 'clear')):
                     bad = True
                     o.refute(m, w.node, w.node, f"{cls}.{unmangle(m.name)} changes the wrapped relation list in place (`{src(w.node)[:60]}`): for a "
                                                 f"link facade that is the task's live predecessors/successors list, so the change is made before "
@@ -922,7 +974,7 @@ def sort_rule(ctx, o):
     for n in walk_no_nested(f.node):
         if isinstance(n, ast.Call) and isinstance(n.func, ast.Attribute) and n.func.attr == 'sort':
             recv = ex.expand(n.func.value, cfg.node_containing(n))
-            if match("self._list", recv) or match("self._ChildrenList__parent._Task__children", recv):
+            if match("self._list", recv) or match(f"self.{_owner_attr(prog)}._Task__children", recv):
                 found = True
                 o.refute(f, n, n, "sort() orders the shared child list in place with list.sort(): when a comparison fails half way (TypeError on "
                                   "values that cannot be compared, e.g. None) the children are left partially reordered")
